@@ -15,7 +15,7 @@ def tasks(tier, seed):
                 if j == 0:
                     ts.append({"kind": "fam", "fam": fam, "lo": seed * 7, "count": exh})
                 continue
-            m = n * 3 if fam == "nfa2dfa" else n        # name-sensitive checker: more instances (cheap ones)
+            m = n * 3 if fam in ("nfa2dfa", "lang_file/x") else n        # name-sensitive checker: more instances (cheap ones)
             ts.append({"kind": "fam", "fam": fam, "lo": seed * 100000 + j * m, "count": m})
     return gen.spread(ts, hs)
 
